@@ -159,7 +159,7 @@ def rule_2(ctx):
     for inc, itok in kinds.items():
         for top, ttok in kinds.items():
             env = {tokname: Rec(**itok), stackname: [Rec(**ttok)], 'self': Rec()}
-            it = Interp(ctx.a, m, env, effect_receivers=('output', 'self', stackname))
+            it = Interp(ctx.a, m, env, effect_receivers=('self', stackname), record_unknown=True)
             # evaluate the arm's own test first: operator tokens must reach this arm
             entered = it.truth(it.ev(arm.test))
             construct = f'pop-guard[top={top!r},incoming={inc!r}]'
@@ -183,7 +183,7 @@ def rule_2(ctx):
     for label, ttok in (('(', dict(tvalue='(', ttype=consts['TOK_TYPE_SUBEXPR'], tsubtype=consts['TOK_SUBTYPE_START'])),
                         ('func', dict(tvalue='SUM', ttype=consts['TOK_TYPE_FUNCTION'], tsubtype=''))):
         env = {tokname: Rec(**kinds['+']), stackname: [Rec(**ttok)], 'self': Rec()}
-        it = Interp(ctx.a, m, env, effect_receivers=('output', 'self', stackname))
+        it = Interp(ctx.a, m, env, effect_receivers=('self', stackname), record_unknown=True)
         out = it.run(arm.body)
         ctx.expect(not (out.called(f'{stackname}.pop') and out.loop_entered), wh,
                    f'pop-guard[top={label},incoming=+]',
